@@ -80,7 +80,10 @@ Control(ts) == {Mk("none", "none", s, "none", t, "iter", "none", "shallow") : s 
 Base == Grid(AllClasses, MsgClasses, Transports) \cup Control(Transports)
 \* one-at-a-time variations over the reduced grid
 VGrid(ts) == Grid(VClasses, VMsgClasses, ts)
-ModeOK(x, md) == x.shape \in ProdShapes /\ (IF md = "token" THEN IsHttp(x.tr) ELSE ~IsHttp(x.tr))
+\* next_with_token() documents a precondition: one data batch per response, i.e. a server without
+\* max_response_bytes (it raises RuntimeError otherwise, by design) -- so not on "httpbuf"
+TokenTransports == HttpTransports \ {"httpbuf"}
+ModeOK(x, md) == x.shape \in ProdShapes /\ (IF md = "token" THEN x.tr \in TokenTransports ELSE ~IsHttp(x.tr))
 Variants ==
        VGrid(XTransports) \cup Control(XTransports)
   \cup Grid(VClasses, XMsgClasses, Transports)
@@ -105,7 +108,7 @@ SiteValid(c)       == IF Fails(c) THEN c.site \in SitesOf(c.shape) ELSE c.site =
 CoordsValid(c)     == /\ c.tr \in HttpTransports \cup SockTransports
                       /\ c.mode \in {"iter", "foriter", "token"} /\ c.chain \in {"none", "cause", "context"}
                       /\ c.depth \in {"shallow", "deep"}
-                      /\ (c.mode = "token" => (IsHttp(c.tr) /\ c.shape \in ProdShapes))
+                      /\ (c.mode = "token" => (c.tr \in TokenTransports /\ c.shape \in ProdShapes))
                       /\ (c.mode = "foriter" => (~IsHttp(c.tr) /\ c.shape \in ProdShapes))
 \* a variation changes exactly one coordinate of a grid point
 OneAtATime(c)      == Cardinality({k \in {"mode", "chain", "depth"} : c[k] # Dflt[k]}) <= 1
@@ -139,7 +142,9 @@ Conforms(c, o) ==
   \cup Clause("MessageCarried",   (Fails(c) /\ o.nerr >= 1) => o.msg_ok)
   \cup Clause("KindExposed",      (Fails(c) /\ o.nerr >= 1 /\ Kind(c.cls) # "") => o.kind = Kind(c.cls))
   \cup Clause("NoSpuriousKind",   (Fails(c) /\ o.nerr >= 1 /\ Kind(c.cls) = "") => o.kind \in {"", "<noattr>"})
-  \cup Clause("NoSpuriousError",  (~Fails(c)) => (o.nerr = 0 /\ o.nother = 0 /\ ~o.hung /\ o.done))
+  \cup Clause("NoSpuriousError",  /\ (~Fails(c)) => (o.nerr = 0 /\ o.nother = 0 /\ ~o.hung /\ o.done)
+                                  \* nor may a failing row fail *before* the implementation raised anything
+                                  /\ (Fails(c) /\ o.srvtype = "") => (o.nerr = 0 /\ o.nother = 0 /\ ~o.hung))
   \cup Clause("Http200WithMarker", IsHttp(c.tr) => \A r \in Resp(o) : r.err => (r.status = 200 /\ r.marker # ""))
   \cup Clause("MarkerOnlyOnFailure", IsHttp(c.tr) => \A r \in Resp(o) : (~r.err) => r.marker = "")
   \* not a clause of the statement (worker reuse after a failure is C04/C14): the driver reports it as drift
